@@ -418,23 +418,87 @@ func checkC05(p *Prog, r *Report) {
 	rule = "E5.depfail-no-enqueue"
 	{
 		found := false
-		for _, b := range a.qAsync.Blocks {
-			iff, ok := lastIf(b)
-			if !ok {
-				continue
+		// the failure edges: the true edge of `dep.State() >= DependencyFailed` in queueTargetAsync itself, or - when the
+		// wait loop lives in a private helper that reports the outcome as a bool - the edge of the caller's test on that
+		// result which corresponds to what the helper returns from the true edge of the comparison
+		type failEdge struct {
+			iff    *ssa.If
+			first  ssa.Instruction
+			marked bool // the helper has already marked the target on its own failure edge
+		}
+		marks := func(j ssa.Instruction) bool {
+			if callsFn(j, a.setState) {
+				if v, ok := constInt(callCommon(j).Args[1]); ok && v == depFailedV {
+					return true
+				}
 			}
+			return false
+		}
+		var edges []failEdge
+		isCmp := func(iff *ssa.If) bool {
 			bo, ok := iff.Cond.(*ssa.BinOp)
 			if !ok {
-				continue
+				return false
 			}
 			c, isC := constInt(bo.Y)
 			cx, isS := bo.X.(*ssa.Call)
-			if !isC || !isS || !callsFn(cx, a.stateFn) || c != depFailedV || (bo.Op != token.GEQ) {
+			return isC && isS && callsFn(cx, a.stateFn) && c == depFailedV && bo.Op == token.GEQ
+		}
+		for _, b := range a.qAsync.Blocks {
+			if iff, ok := lastIf(b); ok && isCmp(iff) {
+				edges = append(edges, failEdge{iff: iff, first: b.Succs[0].Instrs[0]})
+			}
+		}
+		for _, g := range satellitesOf(a.qAsync) {
+			if g.Signature.Results().Len() != 1 || typeString(g.Signature.Results().At(0).Type()) != "bool" {
 				continue
 			}
+			for _, b := range g.Blocks {
+				iff, ok := lastIf(b)
+				if !ok || !isCmp(iff) {
+					continue
+				}
+				// what the helper answers on the failure edge
+				var answer *bool
+				consistent := true
+				for _, rc := range returnCases(g, 0) {
+					if !hasFact(rc.Facts, true, func(v ssa.Value) bool { return v == iff.Cond }) {
+						continue
+					}
+					bv, isC := constBool(rc.Vals[0])
+					if !isC || (answer != nil && *answer != bv) {
+						consistent = false
+						continue
+					}
+					answer = &bv
+				}
+				if answer == nil || !consistent {
+					continue
+				}
+				for _, cb := range a.qAsync.Blocks {
+					ciff, ok := lastIf(cb)
+					if !ok {
+						continue
+					}
+					// the caller's test may be `building && !helper(t)`: every If whose condition is the helper's result
+					f := normFact(ciff.Cond, true)
+					c, ok := f.V.(*ssa.Call)
+					if !ok || c.Call.StaticCallee() != g {
+						continue
+					}
+					succ := 0
+					if f.Val != *answer {
+						succ = 1
+					}
+					hf := b.Succs[0].Instrs[0]
+					edges = append(edges, failEdge{iff: ciff, first: cb.Succs[succ].Instrs[0], marked: marks(hf) || !existsPath(g, hf, nil, marks)})
+				}
+			}
+		}
+		for _, fe := range edges {
+			iff, first := fe.iff, fe.first
 			found = true
-			// from the true successor: addPendingBuild unreachable, FinishBuild + SetState(DependencyFailed) on all paths
-			first := b.Succs[0].Instrs[0]
+			// from the failure edge: addPendingBuild unreachable, FinishBuild + SetState(DependencyFailed) on all paths
 			var adds []ssa.Instruction
 			for _, i := range callsInFn(a.qAsync, a.addPending) {
 				adds = append(adds, i)
@@ -446,14 +510,7 @@ func checkC05(p *Prog, r *Report) {
 				}
 			}
 			r.check(!reach, rule, "failed dependency => no addPendingBuild", p.pos(iff.Pos()), fnName(a.qAsync), "addPendingBuild is unreachable from the dependency-failed edge", "addPendingBuild is reachable after a dependency was found failed: the target would be built although its dependency failed")
-			skip := existsPath(a.qAsync, first, nil, func(j ssa.Instruction) bool {
-				if callsFn(j, a.setState) {
-					if v, ok := constInt(callCommon(j).Args[1]); ok && v == depFailedV {
-						return true
-					}
-				}
-				return false
-			}) && !isSetState(first, a, depFailedV)
+			skip := existsPath(a.qAsync, first, nil, marks) && !isSetState(first, a, depFailedV) && !fe.marked
 			r.check(!skip, rule, "failed dependency => SetState(DependencyFailed)", p.pos(iff.Pos()), fnName(a.qAsync), "state becomes DependencyFailed on every path of the failure edge", "a path on the dependency-failed edge returns without marking the target DependencyFailed: its own dependents would treat it as built")
 		}
 		if !found {
@@ -544,7 +601,7 @@ func checkC05(p *Prog, r *Report) {
 			return out
 		}
 		waitEdges := map[string]bool{}
-		for _, w := range callsInFn(a.qAsync, a.waitBuild) {
+		for _, w := range callsInFnS(a.qAsync, a.waitBuild) {
 			for k := range depAccessors(callCommon(w).Args[0]) {
 				waitEdges[k] = true
 			}
@@ -558,13 +615,16 @@ func checkC05(p *Prog, r *Report) {
 			for _, g := range withAnon(cyc) {
 				eachInstr(g, false, func(_ *ssa.Function, i ssa.Instruction) {
 					cc := callCommon(i)
-					if cc == nil || g.Parent() == nil || resolveCalleeDeep(cc) != g || len(cc.Args) == 0 {
+					// the recursive step of the search: a closure of Check, or a private helper / method that exists for it
+					if cc == nil || g == cyc || resolveCalleeDeep(cc) != g || len(cc.Args) == 0 {
 						return
 					}
 					nRec++
 					site = i.Pos()
-					for k := range depAccessors(cc.Args[0]) {
-						cycEdges[k] = true
+					for _, arg := range cc.Args {
+						for k := range depAccessors(arg) {
+							cycEdges[k] = true
+						}
 					}
 				})
 			}
@@ -898,7 +958,7 @@ func checkC04(p *Prog, r *Report) {
 	bsites := p.callers(a.build)
 	for _, i := range bsites {
 		fn := i.Parent()
-		okk := topFunc(fn) == a.run
+		okk := topFunc(fn) == a.run || isSatelliteOf(topFunc(fn), a.run) // the worker's body may be a private function of Run
 		r.check(okk, rule, "caller of build.Build", p.pos(i.Pos()), fnName(fn), "called from the action worker in plz.Run", "build.Build is called from outside the action worker loop of plz.Run: a target's command could run without going through the pending-queue CAS (run twice / before dependencies)")
 	}
 	if len(bsites) == 0 {
@@ -939,7 +999,7 @@ func checkC04(p *Prog, r *Report) {
 			}
 		}
 		adds := callsInFn(a.qAsync, a.addPending)
-		waits := callsInFn(a.qAsync, a.waitBuild)
+		waits := callsInFnS(a.qAsync, a.waitBuild)
 		var resolves []ssa.Instruction
 		eachInstr(a.qAsync, false, func(_ *ssa.Function, i ssa.Instruction) {
 			if callsFn(i, a.resolveDeps) {
@@ -965,6 +1025,10 @@ func checkC04(p *Prog, r *Report) {
 				}
 				for _, w := range waits {
 					skip := existsPathAssuming(a.qAsync, w, ad, func(j ssa.Instruction) bool { return callsFn(j, a.stateFn) }, assume)
+					if w.Parent() != a.qAsync {
+						// the wait loop is in a private helper: it cannot return without having read the state
+						skip = existsPath(w.Parent(), w, nil, func(j ssa.Instruction) bool { return callsFn(j, a.stateFn) })
+					}
 					r.check(!skip, rule, "WaitForBuild -> State() check -> addPendingBuild", p.pos(w.Pos()), fnName(a.qAsync), "every path from WaitForBuild to addPendingBuild reads the dependency's State()", "a path from WaitForBuild reaches addPendingBuild without reading the dependency's State(): a failed dependency would not stop the target from being built")
 				}
 			}
@@ -1326,7 +1390,7 @@ func (p *Prog) cycleWatchRules(r *Report, a *schedAnchors) {
 	// the failure branch of Build: from the LogBuildError call to the return
 	var fail ssa.Instruction
 	lbe := p.Fn("core", "BuildState.LogBuildError")
-	for _, ci := range callsInFn(a.build, lbe) {
+	for _, ci := range callsInFnS(a.build, lbe) {
 		fail = ci
 	}
 	if fail == nil {
@@ -1334,9 +1398,10 @@ func (p *Prog) cycleWatchRules(r *Report, a *schedAnchors) {
 		return
 	}
 	woken := false
-	eachInstr(a.build, false, func(_ *ssa.Function, i ssa.Instruction) {
+	failFn := fail.Parent() // Build itself, or the private helper that holds its failure branch
+	eachInstr(failFn, false, func(_ *ssa.Function, i ssa.Instruction) {
 		cc := callCommon(i)
-		if cc == nil || !(i == fail || existsPath(a.build, fail, i, nil)) {
+		if cc == nil || !(i == fail || existsPath(failFn, fail, i, nil)) {
 			return
 		}
 		g := cc.StaticCallee()
